@@ -130,7 +130,13 @@ func (fs *fileStorage) ReadData(key string) ([]byte, error) {
 }
 
 func (fs *fileStorage) WriteData(key string, val []byte) error {
-	err := ioutil.WriteFile(fs.filePath(key), val, 0640)
+	// write the new content next to the file and rename it over: at every crash point the file is
+	// either the old or the new complete content, never an empty or a partial one
+	tmpFn := fs.filePath(key) + ".tmp"
+	err := ioutil.WriteFile(tmpFn, val, 0640)
+	if err == nil {
+		err = os.Rename(tmpFn, fs.filePath(key))
+	}
 	if err == nil {
 		fs.logger.Debug("Wrote key=", key, ", value=", string(val))
 	}
